@@ -28,7 +28,7 @@ from lib import core
 from lib.core import Result
 
 READY = True
-EXTRA_MODULES = ['Generated.Operators']
+EXTRA_MODULES = ['Generated.Operators', 'Driver.Expr']
 MANIFEST = dict(
     text='Proof (Lean 4): whatever the audit of a sub-formula reports is reported by the audit of every formula containing it, through any chain '
     'of operator kinds (C12.audit_complete, induction over paths; unknown_column_refused, logit_keys_refused); draws / integration variables / '
@@ -564,33 +564,44 @@ def nests_check(ctx, res, rng):
                     res.violate(f'models.lognested refuses {name} nests with {core.exc_kind(e)}', case, core.exc_kind(e), 'BiogemeError', where='models.nested')
 
 
+def missing_cases(code):
+    """abstract formulas (exprgen format) on rows where column m holds the code; (case, reads_m)"""
+    def base(nodes, root_nodes):
+        return {'nodes': nodes + root_nodes, 'roots': [len(nodes) + len(root_nodes) - 1], 'columns': ['x', 'm', 'k', 'z', 'ch'],
+                'rows': [[1.0, float(code), 1.0, 0.0, 1.0], [2.0, float(code), 1.0, 0.0, 1.0]], 'dict': {}}
+
+    # 0 b, 1 x, 2 m, 3 k, 4 z, 5 ch, 6 b*x, 7 b*m, 8 num0, 9 num1
+    N = [{'k': 'beta', 'name': 'b', 'v': 0.5, 'fixed': False}, {'k': 'var', 'name': 'x'}, {'k': 'var', 'name': 'm'}, {'k': 'var', 'name': 'k'},
+         {'k': 'var', 'name': 'z'}, {'k': 'var', 'name': 'ch'}, {'k': 'times', 'c': [0, 1]}, {'k': 'times', 'c': [0, 2]},
+         {'k': 'num', 'v': 0.0, 'raw': False}, {'k': 'num', 'v': 1.0, 'raw': False}]
+    out = {
+        'read_plain': (base(N, [{'k': 'plus', 'c': [7, 8]}]), True),
+        'read_nested': (base(N, [{'k': 'exp', 'c': [6]}, {'k': 'gt', 'c': [2, 8]}, {'k': 'plus', 'c': [10, 11]}]), True),
+        'unread_column': (base(N, [{'k': 'plus', 'c': [6, 8]}]), False),
+        'unread_elem_branch': (base(N, [{'k': 'elem', 'c': [3, 6, 7], 'keys': [1, 2]}]), False),
+        'read_elem_branch': (base(N, [{'k': 'elem', 'c': [3, 7, 6], 'keys': [1, 2]}]), True),
+        'unread_condsum_term': (base(N, [{'k': 'gt', 'c': [1, 8]}, {'k': 'ne', 'c': [4, 8]}, {'k': 'condSum', 'c': [10, 6, 11, 2]}]), False),
+        'unread_unavailable_utility': (base(N, [{'k': 'logLogit', 'c': [5, 6, 7, 9, 4], 'keys': [1, 2], 'full': False}]), False),
+        'read_available_utility': (base(N, [{'k': 'num', 'v': 1.0, 'raw': False}, {'k': 'logLogit', 'c': [5, 6, 7, 9, 10], 'keys': [1, 2], 'full': False}]), True),
+    }
+    return out
+
+
 def missing_worker(payload):
-    """fresh process: evaluate a formula on a row containing the missing-data code"""
+    """fresh process: evaluate an abstract formula on rows containing the missing-data code"""
     import warnings
+    import logging
 
     warnings.simplefilter('ignore')
-    import pandas as pd
+    logging.disable(logging.CRITICAL)
     import biogeme.biogeme as bio
-    import biogeme.database as dbm
-    from biogeme.expressions import Beta, Variable, Elem, Numeric, ConditionalSum, ConditionalTermTuple, exp
-    from biogeme.expressions.logit_expressions import _bioLogLogit
+    from gen import exprgen as G
 
     code = payload['code']
-    df = pd.DataFrame({'x': [1.0, 2.0], 'm': [float(code), float(code)], 'k': [1.0, 1.0], 'z': [0.0, 0.0], 'ch': [1.0, 1.0]})
-    db = dbm.Database('t', df)
-    b = Beta('b', 0.5, None, None, 0)
-    x, m, k, z = Variable('x'), Variable('m'), Variable('k'), Variable('z')
-    forms = {
-        'read_plain': b * m,
-        'read_nested': exp(b * x) + (m > 0),
-        'unread_column': b * x,
-        'unread_elem_branch': Elem({1: b * x, 2: b * m}, k),
-        'read_elem_branch': Elem({1: b * m, 2: b * x}, k),
-        'unread_condsum_term': ConditionalSum([ConditionalTermTuple(condition=(x > 0), term=b * x), ConditionalTermTuple(condition=(z != 0), term=m)]),
-        'unread_unavailable_utility': _bioLogLogit({1: b * x, 2: b * m}, {1: Numeric(1), 2: z}, Variable('ch')),
-        'read_available_utility': _bioLogLogit({1: b * x, 2: b * m}, {1: Numeric(1), 2: Numeric(1)}, Variable('ch')),
-    }
-    e = forms[payload['formula']]
+    case = payload['case']
+    objs = G.build(case)
+    e = objs[case['roots'][0]]
+    db = G.database(case)
     out = {}
     os.chdir(tempfile.mkdtemp(prefix='vbg_'))
     Path('biogeme.toml').write_text(f'[Specification]\nmissing_data = {code}\n')
@@ -598,14 +609,19 @@ def missing_worker(payload):
         if payload['path'] == 'bio':
             B = bio.BIOGEME(db, e)
             v = B.calculate_likelihood([0.5], scaled=False)
-            out = {'ok': float(v)}
+            out = {'ok_sum': float(v)}
+        elif payload['path'] == 'bio_simulate':
+            B = bio.BIOGEME(db, e)
+            sim = B.simulate({'b': 0.5})
+            vals = [float(t) for t in sim.iloc[:, 0].to_numpy()]
+            # simulate reports an observation that cannot be evaluated as NaN
+            out = {'error': 'NaN', 'msg': str(vals)} if any(t != t for t in vals) else {'ok': vals}
         elif payload['path'] == 'bio_formula':
             # the declared code must also govern formula-level evaluation of the model's formulas
             B = bio.BIOGEME(db, e)
             v = B.log_like.get_value_c(database=db, prepare_ids=True)
             out = {'ok': [float(t) for t in v]}
         else:
-            e.missingData = code if payload.get('set_attr') else e.missingData
             v = e.get_value_c(database=db, prepare_ids=True)
             out = {'ok': [float(t) for t in v]}
     except Exception as ex:  # noqa: BLE001
@@ -615,26 +631,44 @@ def missing_worker(payload):
 
 def missing_check(ctx, res):
     from concurrent.futures import ThreadPoolExecutor
+    from gen import exprgen as G
+    from lib.core import f2b, b2f
 
-    reads = {'read_plain': True, 'read_nested': True, 'unread_column': False, 'unread_elem_branch': False, 'read_elem_branch': True,
-             'unread_condsum_term': False, 'unread_unavailable_utility': False, 'read_available_utility': True}
     jobs = []
     for code in ([99999, -7] if ctx.quick else [99999, -7, 12345]):
-        for name, rd in reads.items():
-            for path in ('bio', 'expr', 'bio_formula'):
+        for name, (case, rd) in missing_cases(code).items():
+            for path in ('bio', 'expr', 'bio_formula', 'bio_simulate'):
                 if path == 'expr' and code != 99999:
                     continue  # the expression path uses the default code of the expression
-                jobs.append({'code': code, 'formula': name, 'path': path})
+                jobs.append({'code': code, 'formula': name, 'path': path, 'case': case, 'reads': rd})
     with ThreadPoolExecutor(max_workers=12) as ex:
         outs = list(ex.map(lambda j: core.run_isolated('props.c12', 'missing_worker', j), jobs))
     for j, out in zip(jobs, outs):
-        case = {'missing_code': j['code'], 'formula': j['formula'], 'path': j['path']}
+        case = {'missing_code': j['code'], 'formula': j['formula'], 'path': j['path'], 'nodes': j['case']['nodes']}
         res.count(case, nontrivial=True)
-        rd = reads[j['formula']]
-        if rd and 'ok' in out:
+        rd = j['reads']
+        produced = 'ok' in out or 'ok_sum' in out
+        if rd and produced:
             res.violate('a value equal to the missing-data code is used in a calculation', case, out, 'error', where='missing data')
-        if not rd and 'ok' not in out:
+        if not rd and not produced:
             res.violate('missing-data code in an unread column/branch makes the evaluation fail', case, out, 'a number', where='missing data')
+        # model: Expr.semMissing on the same abstract case, row by row
+        c = j['case']
+        bv = G.beta_values(c)
+        reqs = [{'op': 'evalmissing', 'dag': G.to_json_nodes(c), 'env': G.env_json(bv, row), 'code': f2b(float(j['code'])), 'root': c['roots'][0]}
+                for row in G.rows_of(c)]
+
+        def cb(ans, out=out, case=case):
+            model_ok = all('ok' in a['missing'] for a in ans)
+            if model_ok != ('ok' in out or 'ok_sum' in out):
+                res.diverge('missing-data test: model vs engine', case, [a['missing'] for a in ans], out, where='missing data')
+            elif model_ok and 'ok_sum' in out:
+                if not core.close(sum(b2f(a['missing']['ok']) for a in ans), out['ok_sum'], rel=1e-9):
+                    res.diverge('sum under the missing-data test: model vs engine', case, [a['missing'] for a in ans], out, where='missing data')
+            elif model_ok and any(not core.close(b2f(a['missing']['ok']), v, rel=1e-9) for a, v in zip(ans, out['ok'])):
+                res.diverge('value under the missing-data test: model vs engine', case, [a['missing'] for a in ans], out, where='missing data')
+
+        ctx.batch.add_many(reqs, cb)
 
 
 def poison_worker(payload):
@@ -715,6 +749,10 @@ def check(ctx) -> Result:
     # a logit *choice* slot is only used directly above the hole: deeper, the planted sub-formula may happen to
     # evaluate to a valid alternative id (e.g. a comparison yields 1) and the model's choiceInvalid flag would be wrong
     items = [it for it in items if not any(c[0].startswith('_bioLogLogit') and c[1] == 0 for c in it[1][1:])]
+    # choice and availability formulas are data formulas: LogLogit.audit evaluates them on their own, so draws /
+    # integration variables (legitimately inside an enclosing MonteCarlo / Integrate) are outside the domain there
+    DATA_OK = {'unknown_column', 'valid_var', 'valid_num', 'logit_keys'}
+    items = [it for it in items if it[0] in DATA_OK or not any(slot_type(c) == 'one' for c in it[1])]
     results = run_plantings(items)
     for it, r in zip(items, results):
         judge_planting(ctx, res, it, r)
@@ -733,6 +771,7 @@ def search(ctx, res, broken):
     r2 = Result()
     items = [[rng.choice(FAULTS), [rng.choice(ctxs) for _ in range(rng.randint(0, 3))], rng.random() < 0.3] for _ in range(600)]
     items = [it for it in items if not any(c[0].startswith('_bioLogLogit') and c[1] == 0 for c in it[1][1:])]
+    items = [it for it in items if it[0] in {'unknown_column', 'valid_var', 'valid_num', 'logit_keys'} or not any(slot_type(c) == 'one' for c in it[1])]
     for it, r in zip(items, run_plantings(items)):
         judge_planting(ctx, r2, it, r)
     ctx.batch.items.clear()
